@@ -5,5 +5,5 @@ ulimit -s unlimited 2>/dev/null || true
 mkdir -p ../work
 exec flock ../work/.build.lock sh -c '
   (echo "-Q . SV"; find . -name "*.v" | sed "s|^\./||" | grep -viE "(^|/)(tmp|dbg|debug|scratch|wip_|test_)|tmp\.v$|dbg\.v$" | sort) > _CoqProject.new
-  if ! cmp -s _CoqProject.new _CoqProject || [ ! -f Makefile ]; then mv _CoqProject.new _CoqProject; coq_makefile -f _CoqProject -o Makefile >/dev/null; else rm -f _CoqProject.new; fi
+  if ! cmp -s _CoqProject.new _CoqProject || [ ! -f Makefile ]; then mv _CoqProject.new _CoqProject; rm -f .Makefile.d; coq_makefile -f _CoqProject -o Makefile >/dev/null; else rm -f _CoqProject.new; fi
   make -j16 "$@"' sh "$@"
